@@ -157,14 +157,14 @@ Section Inv.
   (* ---------------------------------------------------------------- start and end of a child element *)
 
   Lemma start_sim c up k rdone tg attrs :
-    Inv c up k rdone -> tag_canon l tg = true -> attrs_canon l attrs = true ->
+    Inv c up k rdone -> tag_canon l tg = true -> tag_not_embedded l tg = true -> attrs_canon l attrs = true ->
     (N.of_nat (List.length (mk_frame k rdone :: up)) <? WBXML_MAX_NESTING_DEPTH) = true ->
     let c' := step c (EvStartElement (ev_name l tg) (map ev_attr attrs) 0) in
     Inv c' (mk_frame k rdone :: up) (FElt tg attrs None) [] /\ c_root c' = c_root c /\ c_charset c' = c_charset c.
   Proof.
-    intros ((E & K & LG) & S & P & KP) TC AC DP. cbv zeta. cbn [XmlFront.step]. unfold on_start_element.
+    intros ((E & K & LG) & S & P & KP) TC EM AC DP. cbv zeta. cbn [XmlFront.step]. unfold on_start_element.
     rewrite E, K. cbn [negb N.eqb WBXML_OK N.ltb N.compare]. rewrite S. cbn match. rewrite E. cbn [negb N.eqb WBXML_OK].
-    unfold tag_canon in TC. apply andb_true_iff in TC. destruct TC as [TC EM]. apply negb_true_iff in EM. rewrite EM. cbn [andb].
+    unfold tag_canon in TC. unfold tag_not_embedded in EM. apply negb_true_iff in EM. rewrite EM. cbn [andb].
     rewrite (flush_head c up k rdone S P KP). unfold start_child. cbn [c_error c_spine c_lang set_spine]. rewrite E, LG.
     cbn [negb N.eqb WBXML_OK].
     assert (D : (WBXML_MAX_NESTING_DEPTH <=? N.of_nat (List.length (mk_frame k rdone :: up))) = false).
@@ -208,11 +208,12 @@ Section Inv.
     - (* element *)
       rewrite kids_fix in HC.
       apply andb_true_iff in HC. destruct HC as [HC KC]. apply andb_true_iff in HC. destruct HC as [HC ND].
-      apply andb_true_iff in HC. destruct HC as [HC DP]. apply andb_true_iff in HC. destruct HC as [TC AC].
+      apply andb_true_iff in HC. destruct HC as [HC DP]. apply andb_true_iff in HC. destruct HC as [HC AC].
+      apply andb_true_iff in HC. destruct HC as [TC EMB].
       change (EvStartElement (ev_name l tg) (map ev_attr attrs) 0 :: flat_map (ev_node l (tag_binary tg)) ch ++ [EvEndElement (ev_name l tg) 0])
         with ([EvStartElement (ev_name l tg) (map ev_attr attrs) 0] ++ flat_map (ev_node l (tag_binary tg)) ch ++ [EvEndElement (ev_name l tg) 0]).
       rewrite !run_app.
-      destruct (start_sim c up k rdone tg attrs HI TC AC DP) as (I1 & R1 & C1).
+      destruct (start_sim c up k rdone tg attrs HI TC EMB AC DP) as (I1 & R1 & C1).
       set (c1 := run c [EvStartElement (ev_name l tg) (map ev_attr attrs) 0]) in *.
       change (step c (EvStartElement (ev_name l tg) (map ev_attr attrs) 0)) with c1 in I1, R1, C1.
       (* the children *)
@@ -377,7 +378,7 @@ Section Inv.
       cbn [c_error c_skip_lvl c_spine c_lang c_root c_page c_charset c_skip_start set_page set_spine set_error set_lang].
       change (WBXML_OK =? WBXML_OK) with true. cbn [negb andb N.ltb N.compare List.length N.of_nat]. rewrite andb_false_r.
       change (WBXML_MAX_NESTING_DEPTH <=? 0) with false.
-      unfold tag_canon in TC. apply andb_true_iff in TC. destruct TC as [TC _]. apply tagname_eqb_eq in TC.
+      unfold tag_canon in TC. apply tagname_eqb_eq in TC.
       destruct (resolve_tag l (ev_name l tg)) as [tag page]. cbn [fst] in TC. subst tag.
       apply (list_eqb_eq attr_eqb attr_eqb_eq) in AC. rewrite AC.
       cbn [c_error c_skip_lvl c_spine c_lang c_root c_page c_charset c_skip_start set_page set_spine set_error set_lang].
@@ -396,3 +397,169 @@ Section Inv.
     unfold reify, kids_of. cbn. now rewrite rev_append_rev, app_nil_r, rev_involutive.
   Qed.
 End Inv.
+
+(* ------------------------------------------------------------------ corollaries *)
+
+From Wbxml Require Import Model.Conv Model.ConvXml2Wbxml Proofs.XmlFrontNames Proofs.XmlFrontSize Gen.TablesData.
+
+(* idempotence on the image: when the tree the front end built is canonical, feeding its events gives the same tree again
+   (with the charset of a document that declares none) *)
+Theorem front_idempotent_on_image main sub input l emb evs ok t r :
+  (forall lid roots, emb lid roots = true -> emb_spec main sub input l lid roots) ->
+  tree_from_xml main sub input evs ok = inl t -> xt_roots t = [r] -> xt_lang t = l_id l ->
+  search_table main (option_map str (option_map bs (l_pub_text l))) (option_map str (option_map bs (l_dtd l))) None = Some l ->
+  root_canon l emb r = true ->
+  tree_from_xml main sub input (events_of l r) true = inl (mk_xtree (xt_lang t) 0 (xt_roots t)).
+Proof.
+  intros EO T R LG ST RC. rewrite R, LG. apply (front_inverts_events main sub input l emb EO r); auto.
+  intros ->. unfold tree_from_xml in T. discriminate.
+Qed.
+
+(* the conversion of the events of a canonical tree is the encoding of that tree *)
+Theorem conversion_of_events_of main btbl sub input l emb root o :
+  (forall lid roots, emb lid roots = true -> emb_spec main sub input l lid roots) ->
+  input <> [] ->
+  search_table main (option_map str (option_map bs (l_pub_text l))) (option_map str (option_map bs (l_dtd l))) None = Some l ->
+  root_canon l emb root = true ->
+  xml2wbxml_events main btbl sub (events_of l root) true o input =
+  match encode_tree btbl o (mk_xtree (l_id l) 0 [root]) with
+  | inl out => mk_res ST_OK (Some out) (N.of_nat (List.length out))
+  | inr e => mk_res (ST_ERR e) None 0
+  end.
+Proof.
+  intros EO NI ST RC. unfold xml2wbxml_events, conv_run.
+  rewrite (front_inverts_events main sub input l emb EO root NI ST RC). destruct input; [now elim NI|reflexivity].
+Qed.
+
+(* ------------------------------------------------------------------ the image of the front end: what is canonical by construction *)
+
+(* names: a token tag the tables return resolves back to itself under the namespace-qualified name — checked on the
+   regenerated tables for every row and every code page a namespace can select *)
+Definition cand_pages (l : lang) : list N := 0 :: map ns_page (opt_list (l_ns l)).
+Definition row_tag (r : tag_row) : tagname := TagTok (t_page r) (t_tok r) (t_opts r) (bs (t_name r)).
+Definition lang_tags_canon (l : lang) : bool :=
+  forallb (fun r => forallb (fun q => match tag_from_xml l (Some q) (t_name r) with
+                                      | Some r' => tag_canon l (row_tag r')
+                                      | None => true
+                                      end) (cand_pages l)) (opt_list (l_tags l)).
+
+Lemma main_table_tags_canon : forallb lang_tags_canon main_table = true.
+Proof. vm_compute. reflexivity. Qed.
+
+Lemma page_of_xmlns_cand l ns : In (page_of_xmlns l ns) (cand_pages l).
+Proof.
+  unfold page_of_xmlns, page_of_xmlns_opt, cand_pages. destruct (l_ns l) as [rows|]; [|now left]. cbn [opt_list].
+  destruct (find (fun r => streq (ns_name r) ns) rows) as [r|] eqn:F; cbn; [|now left].
+  right. apply in_map. apply find_some in F. tauto.
+Qed.
+
+Theorem resolve_tag_token_canon l name p t o nm :
+  lang_tags_canon l = true -> fst (resolve_tag l name) = TagTok p t o nm -> tag_canon l (TagTok p t o nm) = true.
+Proof.
+  intros LC. unfold resolve_tag.
+  destruct (match split_last SEP name with Some (a, b) => (a, b) | None => ([], name) end) as [ns local].
+  destruct (tag_from_xml l (Some (page_of_xmlns l (str ns))) (str local)) as [row|] eqn:T; cbn [fst]; [|discriminate].
+  intros H. rewrite <- H.
+  unfold lang_tags_canon in LC. rewrite forallb_forall in LC.
+  pose proof (XmlFrontNames.tag_from_xml_in _ _ _ _ T) as IN. specialize (LC row IN). rewrite forallb_forall in LC.
+  specialize (LC _ (page_of_xmlns_cand l (str ns))).
+  assert (NM : t_name row = str local) by exact (tag_from_xml_name _ _ _ _ T).
+  rewrite NM in LC. rewrite T in LC. exact LC.
+Qed.
+
+(* attributes: what resolve_attr returns resolves back to itself (names and values are octets) *)
+Lemma bs_str_id b : Forall (fun c => c < 256) b -> bs (str b) = b.
+Proof.
+  unfold bs, str, bytes_of_string. induction 1 as [|x r Hx _ IH]; [reflexivity|].
+  cbn [string_of_bytes fold_right list_ascii_of_string map]. rewrite Ascii.N_ascii_embedding by exact Hx. f_equal. exact IH.
+Qed.
+
+Theorem resolve_attr_canon l nv :
+  Forall (fun c => c < 256) (fst nv) -> ev_attr (resolve_attr l nv) = nv.
+Proof.
+  destruct nv as [name value]. cbn [fst]. intros BY. unfold resolve_attr, ev_attr, attr_xml_name.
+  destruct (fst (attr_from_xml l (str name) (Some (str value)))) as [row|] eqn:A; cbn; [|reflexivity].
+  unfold attr_from_xml in A. destruct (l_attrs l) as [rows|]; [|discriminate].
+  destruct (attr_loop_name _ _ _ _ _ _ A) as [X|X]; [discriminate|]. now rewrite X, bs_str_id.
+Qed.
+
+(* what is NOT canonical in the image (the predicate is sufficient, not necessary; each of these trees is still rebuilt by
+   the C from its events — the replay tie shows it for the second and third): *)
+Definition lang_by_id (id : N) : lang := match get_table main_table id with Some l => l | None => mk_lang 0 0 None None None None None None None None end.
+
+Definition image_root (evs : list event) : node :=
+  match tree_from_xml main_table (fun _ => inr 104) [60] evs true with inl t => hd NPi (xt_roots t) | inr _ => NPi end.
+
+(* 1. an empty character-data event (Expat never delivers one) leaves an empty text node *)
+Definition w1_events : list event := [EvStartElement (bs "wml") [] 0; EvCharacters []; EvEndElement (bs "wml") 0].
+Definition w1_root : node := Eval vm_compute in image_root w1_events.
+Lemma image_not_canonical_empty_text :
+  tree_from_xml main_table (fun _ => inr 104) [60] w1_events true = inl (mk_xtree 1101 0 [w1_root]) /\
+  root_canon (lang_by_id 1101) (fun _ _ => false) w1_root = false.
+Proof. split; vm_compute; reflexivity. Qed.
+
+(* 2. a CDATA section after text inside a binary-flagged element: the CDATA node is attached before the cached text *)
+Definition w2_events : list event :=
+  [EvStartElement (bs "AirSync:|Sync") [] 0; EvStartElement (bs "ComposeMail:|MIME") [] 0; EvCharacters (bs "Zg==");
+   EvStartCdata; EvCharacters (bs "x"); EvEndCdata; EvEndElement (bs "ComposeMail:|MIME") 0; EvEndElement (bs "AirSync:|Sync") 0].
+Definition w2_root : node := Eval vm_compute in image_root w2_events.
+Lemma image_not_canonical_cdata_in_binary :
+  tree_from_xml main_table (fun _ => inr 104) [60] w2_events true = inl (mk_xtree 2402 0 [w2_root]) /\
+  root_canon (lang_by_id 2402) (fun _ _ => false) w2_root = false.
+Proof. split; vm_compute; reflexivity. Qed.
+
+(* 3. a binary-flagged AirSync <Data> below <Add>/<Replace>: the SyncML CDATA hack takes the text, it is not decoded *)
+Definition w3_events : list event :=
+  [EvStartElement (bs "AirSync:|Sync") [] 0; EvStartElement (bs "AirSync:|Replace") [] 0; EvStartElement (bs "AirSync:|Item") [] 0;
+   EvStartElement (bs "AirSync:|Data") [] 0; EvCharacters (bs "YWJj"); EvEndElement (bs "AirSync:|Data") 0;
+   EvEndElement (bs "AirSync:|Item") 0; EvEndElement (bs "AirSync:|Replace") 0; EvEndElement (bs "AirSync:|Sync") 0].
+Definition w3_root : node := Eval vm_compute in image_root w3_events.
+Lemma image_not_canonical_data_hack :
+  tree_from_xml main_table (fun _ => inr 104) [60] w3_events true = inl (mk_xtree 2402 0 [w3_root]) /\
+  root_canon (lang_by_id 2402) (fun _ _ => false) w3_root = false.
+Proof. split; vm_compute; reflexivity. Qed.
+
+(* ------------------------------------------------------------------ real trees are canonical *)
+
+Definition no_emb : N -> list node -> bool := fun _ _ => false.
+
+(* WML 1.3: tokens, an attribute start token with value, a literal element, text *)
+Definition ex_wml_root : node :=
+  NElt (TagTok 0 63 0 (bs "wml")) []
+    [NElt (TagTok 0 39 0 (bs "card")) [mk_at (AttrTok 0 85 (bs "id") None) (bs "c")]
+       [NElt (TagTok 0 32 0 (bs "p")) [] [NText (bs "a&b")]; NElt (TagLit (bs "zz")) [] []]].
+Example ex_wml_canonical : root_canon (lang_by_id 1104) no_emb ex_wml_root = true.
+Proof. vm_compute. reflexivity. Qed.
+
+(* SyncML 1.1: namespace table, the vCard <Data> inside the CDATA node the front end adds *)
+Definition ex_syncml_root : node :=
+  NElt (TagTok 0 45 0 (bs "SyncML")) []
+    [NElt (TagTok 0 5 0 (bs "Add")) []
+       [NElt (TagTok 0 20 0 (bs "Item")) []
+          [NElt (TagTok 0 15 0 (bs "Data")) [] [NCData [NText (bs "BEGIN:VCARD" ++ [13; 10] ++ bs "END:VCARD")]]]]].
+Example ex_syncml_canonical : root_canon (lang_by_id 2101) no_emb ex_syncml_root = true.
+Proof. vm_compute. reflexivity. Qed.
+
+(* ActiveSync: namespaces per code page, a binary-flagged element with mixed content *)
+Definition ex_activesync_root : node :=
+  NElt (TagTok 0 5 0 (bs "Sync")) []
+    [NElt (TagTok 21 16 1 (bs "MIME")) [] [NText (bs "f"); NElt (TagTok 21 7 0 (bs "SmartReply")) [] []; NText (bs "oo")]].
+Example ex_activesync_canonical : root_canon (lang_by_id 2402) no_emb ex_activesync_root = true.
+Proof. vm_compute. reflexivity. Qed.
+
+Example ex_doctype_selects : forall id, In id [1104; 2101; 2402] ->
+  let l := lang_by_id id in
+  search_table main_table (option_map str (option_map bs (l_pub_text l))) (option_map str (option_map bs (l_dtd l))) None = Some l.
+Proof. intros id [<-|[<-|[<-|[]]]]; vm_compute; reflexivity. Qed.
+
+Lemma no_emb_ok main sub input l : forall lid roots, no_emb lid roots = true -> emb_spec main sub input l lid roots.
+Proof. discriminate. Qed.
+
+(* ... so the theorem applies to them: *)
+Example ex_activesync_inverted :
+  tree_from_xml main_table (fun _ => inr 104) [60] (events_of (lang_by_id 2402) ex_activesync_root) true
+  = inl (mk_xtree 2402 0 [ex_activesync_root]).
+Proof.
+  apply (front_inverts_events main_table _ [60] (lang_by_id 2402) no_emb (no_emb_ok _ _ _ _) ex_activesync_root); [discriminate| |exact ex_activesync_canonical].
+  apply (ex_doctype_selects 2402). cbn. auto.
+Qed.
